@@ -77,6 +77,9 @@ class Register:
         self._alias_from = alias_from
         self._alias_slice = alias_slice
         if alias_slice is not None:
+            if isinstance(alias_slice.step, Integral) and alias_slice.step == 0:
+                # (whatever the other bounds or the size of the source are)
+                raise JaqalError("Slice step cannot be zero.")
             if (
                 isinstance(alias_slice.start, AnnotatedValue)
                 or isinstance(alias_slice.stop, AnnotatedValue)
